@@ -45,7 +45,7 @@ Qed.
 Print Assumptions C17_records.
 
 (* and with enums and container types, through the item framework (front/GenInv.v, front/Items.v, front/TyItems.v, front/Schema.v):
-   any sequence of struct, readonly struct, message, enum and union definitions (union branches structs or messages, front/TyUnion.v; structs and messages optionally under an [opcode(..)] line, front/TyOpcode.v; enums optionally with an integer base type, front/TyEnum.v; message fields optionally deprecated, front/TyDep.v; struct and message FIELDS optionally under `//` doc comment lines - which are also where a field's tags come from - followed by an optional [deprecated(..)] line, front/TyFDoc.v / TyFDocM.v, and likewise the MEMBERS of an enum, front/TyEDoc.v, and the MEMBERS of a union, front/TyUDoc.v; struct fields optionally followed on their line by a `//` comment - which ReadFile skips and Format keeps on that line, front/TyFEol.v; structs and messages optionally under `//` doc comment lines, front/TyDoc.v - Format writes them back unchanged and puts no blank line before them; and, generically, ANY sequence of comment and opcode lines before a struct, readonly struct, message, union or typed enum, front/TyDec.v; import lines, front/TyImport.v), field types identifiers, array[T], map[K, V] and T[]
+   any sequence of struct, readonly struct, message, enum and union definitions (union branches structs or messages, front/TyUnion.v; structs and messages optionally under an [opcode(..)] line, front/TyOpcode.v; enums optionally with an integer base type, front/TyEnum.v; message fields optionally deprecated, front/TyDep.v; struct and message FIELDS optionally under `//` doc comment lines - which are also where a field's tags come from - followed by an optional [deprecated(..)] line, front/TyFDoc.v / TyFDocM.v, and likewise the MEMBERS of an enum, front/TyEDoc.v, and the MEMBERS of a union, front/TyUDoc.v; enum values and integer opcodes decimal or 0x-hexadecimal literals (front/LexInv.v: next_hexnumber), struct fields optionally followed on their line by a `//` comment - which ReadFile skips and Format keeps on that line, front/TyFEol.v; structs and messages optionally under `//` doc comment lines, front/TyDoc.v - Format writes them back unchanged and puts no blank line before them; and, generically, ANY sequence of comment and opcode lines before a struct, readonly struct, message, union or typed enum, front/TyDec.v; import lines, front/TyImport.v), field types identifiers, array[T], map[K, V] and T[]
    nested to any depth (front/TyInv.v: format_type on the tokens of a type expression), every layout *)
 Definition C17_schema_statement : Prop :=
   forall dl lay tail,
